@@ -1,4 +1,20 @@
-"""C04 -- a reactor saved to the database loads back observationally equal.  (work in progress: projection first)"""
+"""C04 -- a reactor saved to the database loads back observationally equal.
+
+spec/db/Layout.tla    the layout algebra (sorted depth-first flattening, location packing, grid deduplication, the recursive
+                      consumer of numChildren, canonical order) and the clause-wise equality of the statement
+spec/db/DbState.tla   histories: mutate / Write / WriteRefused / Load / Resave over snapshots and loaded reactors
+
+run():  1. TLC: Layout_mc (all trees <= 4 nodes: 10 theorems) and DbState_mc (all histories <= 4/5 calls: 7 invariants, 3 step properties)
+        2. spec -> code: every tree TLC emits (Layout_emit) is built from real Reactor/Composite/Circle objects, written with
+           Database.writeToDB into an in-memory HDF5 file, layout/* compared with FileObs(Flatten(t)), loaded with
+           Database.load and compared with LoadFile(Flatten(t)); unsortable trees must be refused
+        3. code -> spec: reactors armi builds from generated blueprints (harness/gen_reactor.py) are mutated through public
+           calls, written, loaded twice, re-saved and loaded again; every call's observation (layout/* read with h5py, the
+           projection of the loaded reactor) goes to TLC (DbState_trace), which computes the required file and state from the
+           projection of the original and judges every clause of the statement on every node.
+Expected values are always TLC's.  Python projects (project / project_file), encodes reals as strings and opaque values as
+digests, and afterwards NAMES the parameter inside a digest TLC found different (name_verdict) so that keys are stable.
+"""
 import hashlib
 import json
 import math
@@ -203,7 +219,7 @@ def _public(g, attr):
         return "raises:" + type(ex).__name__
 
 
-def project(root, detail=False):
+def project(root):
     """abstract state (spec/db/Layout.tla): nodes in in-memory depth-first order, 1-based ids, root = 1.
     Returns (nodes, details, notes): details = the un-digested values (diagnostics / naming of differences only)."""
     from armi.reactor import grids
@@ -320,7 +336,7 @@ NOT_ASSIGNED = {
     "temperatureInC", "height", "heightBOL", "z", "zbottom", "ztop", "axMesh", "orientation", "xsType", "envGroup",
     "xsTypeNum", "envGroupNum", "kgHM", "kgFis", "puFrac", "maxAssemNum", "cycle", "timeNode", "molesHmBOL", "massHmBOL",
     "nHMAtBOL", "initialB10ComponentVol", "topIndex", "mergeWith", "customIsotopicsName", "theoreticalDensityFrac",
-    "displacementX", "displacementY",
+    "displacementX", "displacementY", "multiplicity",
 }
 # parameters without a default that AssignParam may set on SOME objects of a class (fixed list: stable finding keys)
 NODEFAULT_OK = ("zrFrac", "buRate")
@@ -975,7 +991,7 @@ def run(rep, tier, seed):
     # 2. spec -> code: TLC's trees, as real objects, through Database.writeToDB / Database.load
     eres, cases = generic_cases("Layout_emit%s.cfg" % sfx)
     rep.add_tlc("cases:Layout_emit%s.cfg" % sfx, eres)
-    ncase = 2500 if thorough else (150 if _SELFTEST else 260)
+    ncase = 1500 if thorough else (150 if _SELFTEST else 260)
     rng = random.Random(seed)
     sample = cases if len(cases) <= ncase else rng.sample(cases, ncase)
     if not sample or not any(not c["sortable"] for c in sample) or not any(c["sortable"] for c in sample):
@@ -999,7 +1015,7 @@ def run(rep, tier, seed):
     rep.sample({"kind": "generic-tree", "tree": sample[len(sample) // 2]["t"], "expected_file": sample[len(sample) // 2]["file"]})
 
     # 3. code -> spec: real histories on reactors armi builds from generated blueprints
-    nh = 180 if thorough else (6 if _SELFTEST else 8)
+    nh = 120 if thorough else (6 if _SELFTEST else 8)
     plan = history_plan(nh, seed)
     wd = common.workdir("c04")
     hs, traces = run_histories(plan, wd)
